@@ -115,6 +115,17 @@ pub fn run(opts: &Opts, corpus: &[Case], reg: &BTreeMap<usize, &Entry>, sink: &m
                     single(opts, c, reg[&c.id], sink)
                 }
             }
+            "C03" => {
+                // rustc has already judged the generated code and the exact-type assertions
+                for c in cases {
+                    sink.evaluations += 1;
+                    if !c.grammar.rules.iter().all(|r| r.body().map(|b| c.grammar.field_types(b).is_empty()).unwrap_or(true)) {
+                        sink.nontrivial += 1;
+                    }
+                    sink.outcome(&c.text);
+                    sink.sample(|| json!({"grammar": c.text, "derives": c.derives, "assertions": refpeg::shape::assertions(&c.grammar, &c.derives)}));
+                }
+            }
             "C05" => memo_group(opts, &cases, reg, sink),
             "C13" => include_group(opts, &cases, reg, sink),
             "C06" => {
